@@ -271,6 +271,17 @@ theorem loopWith_raw_int_identical {S G D : Type} (P : Prng S G D) (s : S) (glob
     (loopWith false P n (.int s) glob).1 = List.replicate n (P.draw (P.ofSeed s)).1 := by
   simp [loopWith, loopS_int]
 
+/-- C15.h `execSim_default_seed`: `execute_simulation` without a seed is `execute_simulation` with the setting's integer
+`seed_data`: the repetitions are the consecutive segments of the stream seeded with it, and the global numpy state is
+neither read nor changed (the run is a function of the setting alone). -/
+theorem execSim_default_seed {S G D : Type} (P : Prng S G D) (seedData : S) (n : Nat) (glob : G) :
+    execSim P seedData n none glob
+      = ((List.range n).map (fun k => (P.draw (advance P k (P.ofSeed seedData))).1), glob) ∧
+    execSim P seedData n none glob = execSim P seedData n (some (.int seedData)) glob := by
+  simp [execSim, loop_int]
+
+example : execSim lcg 5 3 none 7 = ([5, 241366, 943247], 7) := by decide
+
 /-- C15.h: each of the twelve `generate_empi_dist(s)(_sequence)` entry points of the four tomography classes converts its
 seed argument exactly once and hands that stream (not a wrapped / re-created one) to the experiment. -/
 theorem gen_entries_convert_once :
